@@ -335,8 +335,10 @@ func ReadBlock(db DatabaseReader, hash common.Hash, number uint64) *types.Block 
 
 // WriteBlock serializes a block into the database, header and body separately.
 func WriteBlock(db DatabaseWriter, block *types.Block) {
-	WriteBody(db, block.Hash(), block.NumberU64(), block.Body())
+	// The header goes first: a block whose body is stored (BlockChain.HasBlock)
+	// then always has its header too, also after a crash in between.
 	WriteHeader(db, block.Header())
+	WriteBody(db, block.Hash(), block.NumberU64(), block.Body())
 }
 
 // DeleteBlock removes all block data associated with a hash.
